@@ -555,27 +555,110 @@ Qed.
 Lemma sr_init_class : forall c a d, sr_init c a = Ok d -> d_cls d = class_code c.
 Proof. intros c a d H. apply sr_init_iff in H. destruct H as [root [cu [_ [-> _]]]]. reflexivity. Qed.
 
-Lemma srread_roundtrip : forall c a d, sr_init c a = Ok d -> srread d = Ok (c, d).
+(* the part of an item that _SR.from_dataset carries over to the rebuilt root: no referenced
+   instance and no optional attribute besides template and continuity *)
+Definition root_typed (it : item) : Prop :=
+  i_ref it = None /\ forall kv, In kv (i_attrs it) -> root_key (fst kv) = true.
+
+Lemma filter_len {A} (p : A -> bool) (l : list A) : (length (filter p l) <= length l)%nat.
+Proof. induction l as [|x l IH]; cbn [filter length]; [lia|]. destruct (p x); cbn [length]; lia. Qed.
+
+Lemma filter_id_iff {A} (p : A -> bool) (l : list A) :
+  filter p l = l <-> forall x, In x l -> p x = true.
 Proof.
-  intros c a d H. apply sr_init_class in H. unfold srread, sr_from_dataset. rewrite H.
-  destruct c; reflexivity.
+  induction l as [|x l IH]; cbn [filter]; [split; [intros _ y []|reflexivity]|].
+  destruct (p x) eqn:E; split.
+  - intros H y [<-|Hy]; [exact E|]. injection H as H. now apply IH.
+  - intros H. f_equal. apply IH. intros y Hy. apply H. now right.
+  - intros H. exfalso. assert (L : (length (filter p l) <= length l)%nat) by apply filter_len.
+    rewrite H in L. cbn [length] in L. lia.
+  - intros H. specialize (H x (or_introl eq_refl)). congruence.
 Qed.
 
-Lemma from_dataset_identity : forall target has_cs d d',
+Lemma reroot_iff : forall it, reroot it = it <-> i_rel it = 0 /\ root_typed it.
+Proof.
+  intros [t g r rf ats ks]. unfold reroot, root_typed. cbn [i_vt i_tag i_rel i_ref i_attrs i_kids]. split.
+  - intros H. injection H as Hr Hf Ha. repeat split; try congruence.
+    now apply (filter_id_iff (fun kv : Z * list Z => root_key (fst kv))).
+  - intros [-> [-> Ha]]. f_equal.
+    now apply (filter_id_iff (fun kv : Z * list Z => root_key (fst kv))).
+Qed.
+
+Lemma attr_get_filter : forall k a, root_key k = true ->
+  attr_get k (filter (fun kv : Z * list Z => root_key (fst kv)) a) = attr_get k a.
+Proof.
+  intros k a Hk. induction a as [|[k' v] a IH]; [reflexivity|]. cbn [filter fst attr_get].
+  destruct (root_key k') eqn:E; cbn [attr_get].
+  - destruct (k' =? k); [reflexivity|exact IH].
+  - destruct (k' =? k) eqn:E2; [apply Z.eqb_eq in E2; congruence|exact IH].
+Qed.
+
+(* what the rebuilt root keeps, whatever the root given carried: value type, name, children
+   (hence every descendant with all of its attributes), template and continuity *)
+Lemma reroot_keeps : forall it,
+  i_vt (reroot it) = i_vt it /\ i_tag (reroot it) = i_tag it /\ i_kids (reroot it) = i_kids it /\
+  descendants (reroot it) = descendants it /\
+  (forall k, root_key k = true -> attr_get k (i_attrs (reroot it)) = attr_get k (i_attrs it)) /\
+  is_report (reroot it) = is_report it.
+Proof.
+  intros [t g r rf ats ks]. unfold reroot, descendants, is_report.
+  cbn [i_vt i_tag i_rel i_ref i_attrs i_kids]. repeat split.
+  - intros k Hk. now apply attr_get_filter.
+  - now rewrite attr_get_filter.
+Qed.
+
+Lemma from_dataset_spec : forall target has_cs d d',
   sr_from_dataset target has_cs d = Ok d' ->
-  d' = d /\ has_cs = true /\
+  d' = set_content d (reroot (d_content d)) /\ has_cs = true /\ i_vt (d_content d) = CONTAINER /\
   (target = Comprehensive -> d_cls d = 1) /\ (target = Comprehensive3D -> d_cls d = 2).
 Proof.
-  intros target has_cs d d' H. unfold sr_from_dataset in H.
-  destruct target, has_cs.
-  - inversion H. repeat split; intros; try reflexivity; congruence.
-  - discriminate.
-  - destruct (d_cls d =? 1) eqn:E; [|discriminate]. inversion H. apply Z.eqb_eq in E.
-    repeat split; intros; try reflexivity; try assumption; congruence.
-  - destruct (d_cls d =? 1); discriminate.
-  - destruct (d_cls d =? 2) eqn:E; [|discriminate]. inversion H. apply Z.eqb_eq in E.
-    repeat split; intros; try reflexivity; try assumption; congruence.
-  - destruct (d_cls d =? 2); discriminate.
+  intros target has_cs d d' H. unfold sr_from_dataset, parse_root in H.
+  assert (B : (if has_cs then bind (if is_report (d_content d)
+                 then if vt_eqb (i_vt (d_content d)) CONTAINER then Ok (reroot (d_content d)) else Err "ValueError"
+                 else if vt_eqb (i_vt (d_content d)) CONTAINER then Ok (reroot (d_content d)) else Err "TypeError")
+                 (fun r => Ok (set_content d r)) else Err "ValueError") = Ok d' ->
+              d' = set_content d (reroot (d_content d)) /\ has_cs = true /\ i_vt (d_content d) = CONTAINER).
+  { intros B. destruct has_cs; [|discriminate].
+    destruct (vt_eqb (i_vt (d_content d)) CONTAINER) eqn:EV.
+    - apply vt_eqb_eq in EV. destruct (is_report (d_content d)); cbn [bind] in B; inversion B; auto.
+    - destruct (is_report (d_content d)); discriminate. }
+  destruct target.
+  - destruct (B H) as [-> [-> HV]]. repeat split; try assumption; intros; congruence.
+  - destruct (d_cls d =? 1) eqn:E; [|discriminate]. apply Z.eqb_eq in E.
+    destruct (B H) as [-> [-> HV]]. repeat split; try assumption; intros; congruence.
+  - destruct (d_cls d =? 2) eqn:E; [|discriminate]. apply Z.eqb_eq in E.
+    destruct (B H) as [-> [-> HV]]. repeat split; try assumption; intros; congruence.
+Qed.
+
+Lemma set_content_same : forall d, set_content d (d_content d) = d.
+Proof. intros []. reflexivity. Qed.
+
+Lemma set_content_inj : forall d it, set_content d it = d -> it = d_content d.
+Proof. intros [] it H. unfold set_content in H. cbn in H. now inversion H. Qed.
+
+(* srread of a written document: same class; the content tree exposed is the rebuilt root *)
+Lemma srread_spec : forall c a d, sr_init c a = Ok d ->
+  srread d = Ok (c, set_content d (reroot (d_content d))).
+Proof.
+  intros c a d H. pose proof (sr_init_class _ _ _ H) as HC. apply sr_init_iff in H.
+  destruct H as [root [cu [[_ [_ [_ [_ [_ [G6 _]]]]]] [-> _]]]].
+  unfold srread, sr_from_dataset, parse_root. rewrite HC. cbn [built_doc d_content d_cls].
+  rewrite G6. replace (vt_eqb CONTAINER CONTAINER) with true by reflexivity.
+  destruct c; cbn; destruct (is_report root); reflexivity.
+Qed.
+
+(* ... and it is the document that was written EXACTLY when the root given carries nothing
+   but what the parser copies *)
+Lemma srread_roundtrip : forall c a d, sr_init c a = Ok d ->
+  (srread d = Ok (c, d) <-> root_typed (d_content d)).
+Proof.
+  intros c a d H. rewrite (srread_spec _ _ _ H).
+  assert (R0 : i_rel (d_content d) = 0).
+  { apply sr_init_iff in H. destruct H as [root [cu [[_ [_ [_ [_ [G5 _]]]]] [-> _]]]]. exact G5. }
+  split.
+  - intros E. injection E as E. apply set_content_inj in E. apply reroot_iff in E. destruct E as [_ E]. exact E.
+  - intros T. replace (reroot (d_content d)) with (d_content d) by (symmetry; apply reroot_iff; tauto).
+    now rewrite set_content_same.
 Qed.
 
 (* ---- key object documents ----------------------------------------------------------------- *)
